@@ -20,6 +20,7 @@ RULE = ('Hypothesis draws constraint expression trees (depth <= 4) over SingleVa
         'a subset of the parent, parent.isSuperTypeOf(child) holds, and a child value can be assigned to a parent-typed record '
         'field and appended to a parent-typed SEQUENCE OF, which then encodes. Non-trivial = tree with >= 2 operators or chain of '
         'length >= 2; distinct = distinct (tree / chain, candidate, operation).')
+RULE += (' ' + 'Also: OBJECT IDENTIFIER payloads under single values and their unions / exclusions; untyped SEQUENCE OF; constraints as class attributes; child values that travelled through pickle / copy; any exception that is not a PyAsn1Error counts as a violation.')
 ASSUMPTIONS = ['denotations are computed by pv/core/cons.py']
 SHARDS = {'quick': (16, 150), 'thorough': (16, 4000)}
 BUDGET = {'quick': 100, 'thorough': 1500}
